@@ -164,6 +164,35 @@ CLAIMS.update({
     ),
 })
 
+CLAIMS.update({
+    "C10": dict(
+        technique="affine abstract interpretation of the id<->variable maps extracted from MIR (interval x congruence disjointness, symbolic composition), dominance of selector allocation",
+        text="NARROW CLAIM (variable layout and decoder agreement only). Decides for all n >= 1 and all ids that argument, attacker-disjunction and "
+        "range variables of the four encoders are given by injective affine maps with pairwise disjoint images, that decoding an argument variable "
+        "gives back its id and never decodes an auxiliary/range/lazily-numbered variable as an argument, that range variables are "
+        "first_range_var(n)+id, that reserve() covers the layout, and that selectors are allocated after encoding. NOT decided: that the models of "
+        "the generated CNF are exactly the conflict-free / admissible / complete / stable sets (main statement; needs all-models reasoning).",
+        ref="4/C10",
+    ),
+    "C11": dict(
+        technique="generic-bounds census and who-may-call (parametricity argument), sink analysis of formatted labels, table/path rules on component extraction (F5/F2)",
+        text="NARROW CLAIM (renaming and mapping clauses). Decides that no solver/encoder/utility can depend on what a label is (only LabelType bounds, "
+        "no reflection, no ordering/hash-order iteration, label text reaches only writers/log/errors), that component extraction copies every attack "
+        "whose attacker is in the component in (attacker, attacked) order with compact ids in vector order and searches components in both "
+        "directions, that results are mapped back by label and readers keep declaration order. NOT decided: invariance under reordering, "
+        "duplicated declarations, disjoint union, and the cross-semantics consistency relations (value clauses).",
+        ref="4/C11",
+    ),
+    "C18": dict(
+        technique="MIR-based static analysis: literal-role tags on the closures installed on MaximalExtensionComputer (F6), must-execute add_clause (F2), loop structure of drivers and CO/ST",
+        text="NARROW CLAIM (progress obligations). Decides that every satisfiable step of the grow/enumerate loops adds on all paths a clause made of the "
+        "complement literals and the positive selector, that increase functions assume members + negated selector, fresh searches the negated and "
+        "same-range searches the positive selector, that every driver loop steps once per iteration and leaves on the terminal state, that CO makes "
+        "no SAT call in a loop and ST one per component, and that the ID enumeration stops early. NOT decided: termination and the numeric bounds.",
+        ref="4/C18",
+    ),
+})
+
 NOT_APPLICABLE = {
     "C19": "Merged arguments being indistinguishable under complete semantics is a semantic fact about a propagation algorithm over all graphs; "
     "no structural necessary condition of value remains for a static rule (DESIGN.md section 4/C19).",
